@@ -15,7 +15,7 @@ var c02Kinds = []objKind{kTCPDial, kTCPAcc, kAdTCP, kAdUnix}
 
 func TestC02_StreamFidelity(t *testing.T) {
 	rec := evid.For("C02")
-	rec.SetRule("rapid state machine over 1..3 stream pairs {sonic.Dial conn, accepted conn, AsyncAdapter over TCP net.Conn, AsyncAdapter over a socketpair} <-> raw peer: local AsyncRead/AsyncReadAll (1..300000 bytes) and AsyncWrite/AsyncWriteAll (1..2 MiB on conns, <=8 KiB on adapters), both directions interleaved, from top level or from the dispatch limit, handlers re-issue; peer writes/drains generated chunk sizes so that *All operations need several kernel transfers and hit would-block in the middle; both streams carry position-dependent bytes; oracle: every read completion's bytes equal the peer's stream at the running offset, 0<n<=len on success, ReadAll/WriteAll success => n==len, the peer receives exactly the written stream in order, final drained length == sum of reported n when all writes succeeded; non-trivial = an *All operation that completed from the poller (needed >=2 transfers) OR read and write in flight together; distinct = hash of the trace")
+	rec.SetRule("rapid state machine over 1..3 stream pairs {sonic.Dial conn, accepted conn, AsyncAdapter over TCP net.Conn, AsyncAdapter over a socketpair} <-> raw peer: local AsyncRead/AsyncReadAll (1..300000 bytes) and AsyncWrite/AsyncWriteAll (1..2 MiB on conns, <=8 KiB on adapters), both directions interleaved, from top level or from the dispatch limit, handlers re-issue; adapters over TCP additionally get multi-MiB writes under a 15 ms write deadline while the peer does not drain (net.Conn.Write returns a partial count with a timeout: the reported count must be exact, the stream continues from it); peer writes/drains generated chunk sizes so that *All operations need several kernel transfers and hit would-block in the middle; both streams carry position-dependent bytes; oracle: every read completion's bytes equal the peer's stream at the running offset, 0<n<=len on success, ReadAll/WriteAll success => n==len, the peer receives exactly the written stream in order, final drained length == sum of reported n when all writes succeeded; non-trivial = an *All operation that completed from the poller (needed >=2 transfers) OR read and write in flight together; distinct = hash of the trace")
 	rec.Assume("AsyncAdapter writes are limited to what fits the socket buffer (net.Conn.Write blocks the single harness goroutine otherwise); no Cancel/Close in the middle of the checked stream except at the end")
 	vt.CheckSteps(t, 600, 30, func(rt *rapid.T) {
 		w := newWorld(rt)
@@ -25,6 +25,7 @@ func TestC02_StreamFidelity(t *testing.T) {
 		for i := 0; i < n; i++ {
 			w.addObject(rapid.SampledFrom(c02Kinds).Draw(rt, "kind"))
 		}
+		deadlineHits := 0
 		pickObj := func(lbl string) *wobj { return w.objs[rapid.IntRange(0, len(w.objs)-1).Draw(rt, lbl)] }
 		readSizes := rapid.SampledFrom([]int{1, 2, 100, 4096, 65536, 70001, 300000})
 		writeSizes := rapid.SampledFrom([]int{1, 2, 100, 4096, 65536, 70001, 300000, 2 << 20})
@@ -52,6 +53,15 @@ func TestC02_StreamFidelity(t *testing.T) {
 			"start":     func(rt *rapid.T) { start(rt, false) },
 			"start2":    func(rt *rapid.T) { start(rt, false) },
 			"startDeep": func(rt *rapid.T) { start(rt, true) },
+			"deadlineWrite": func(rt *rapid.T) {
+				o := pickObj("o")
+				if o.kind != kAdTCP || rapid.IntRange(0, 2).Draw(rt, "really") != 0 {
+					rt.Skip("adapters over TCP only, rarely")
+				}
+				if p := w.deadlineWrite(o, rapid.SampledFrom([]int{4 << 20, 12 << 20}).Draw(rt, "size"), "top"); p != nil && p.err != nil && p.n > 0 {
+					deadlineHits++
+				}
+			},
 			"peerWrite": func(rt *rapid.T) {
 				w.peerWrite(pickObj("o"), rapid.SampledFrom([]int{1, 3, 100, 1000, 4096, 30000, 70000, 400000}).Draw(rt, "k"))
 			},
@@ -102,6 +112,9 @@ func TestC02_StreamFidelity(t *testing.T) {
 		}
 		if w.deepIssue {
 			cls = append(cls, "issued-at-dispatch-limit")
+		}
+		if deadlineHits > 0 {
+			cls = append(cls, "adapter-write-failed-with-partial-count")
 		}
 		var kinds []string
 		for _, o := range w.objs {
